@@ -228,5 +228,5 @@ def _gc_old(keep):
     except OSError:
         return
     ents.sort(reverse=True)
-    for _, d in ents[10:]:
+    for _, d in ents[16:]:
         shutil.rmtree(os.path.join(root, d), ignore_errors=True)
